@@ -405,8 +405,9 @@ def _asmops_rule(chk, prog):
                 signed = sg.v
                 if signed is None:
                     e = strip_casts(sg)
-                    if e.k == "bin" and e.op == "==" and is_ref(strip_casts(e.kids[1])):
-                        signed = 1 if strip_casts(e.kids[1]).name == lab else 0
+                    if e.k == "bin" and e.op in ("==", "!=") and is_ref(strip_casts(e.kids[1])):
+                        same = strip_casts(e.kids[1]).name == lab
+                        signed = 1 if (same if e.op == "==" else not same) else 0
                 if nth is None or nb is None or signed is None:
                     manual.add(lab)
                     continue
@@ -665,6 +666,7 @@ def run(chk):
     _bitsetword_rule(chk, prog)
     _pegopmask_rule(chk, prog)
     _fiberargs_rule(chk, prog)
+    _protopair_rule(chk, prog)
 
 
 def _asmrange_rule(chk, prog):
@@ -1088,3 +1090,34 @@ def _pegopmask_rule(chk, prog):
                               "value of the flag bits makes the word exceed the limit and a grammar the compiler produced is refused "
                               "when its image is read back" % (whole.text()[:50], lab, sorted(hex(mm) for mm in masks)))
     chk.floor(rule, 1, n)
+
+
+def _protopair_rule(chk, prog):
+    """Tables travel under one of eight lead bytes: four kinds (plain, weak keys, weak values, weak both), each with and
+    without a prototype.  The reader picks the constructor by testing `lead == X_PROTO || lead == X`: the two names of
+    one test must be the same kind, or a table of one kind with a prototype is rebuilt as another kind - silently, the
+    stream stays aligned."""
+    rule = "C09-PROTOPAIR"
+    chk.rule(rule, "in unmarshal_one every `lead == A || lead == B` test over table lead bytes names the with-prototype and without-prototype form of the same kind")
+    fn = prog.tus["marsh.c"].funcs.get("unmarshal_one")
+    if fn is None:
+        raise AnalysisBroken("unmarshal_one not found")
+    chk.analysed(fn)
+    n = 0
+    for x in fn.nodes:
+        if x.k != "bin" or x.op != "||" or (x.parent is not None and x.parent.k == "bin" and x.parent.op == "||"):
+            continue
+        names = [y.name for y in x.walk() if y.k == "ref" and y.name.startswith("LB_TABLE")]
+        if len(names) != 2:
+            continue
+        n += 1
+        chk.instance(rule)
+        a, b = sorted(names, key=len)
+        if b == a + "_PROTO":
+            chk.ok(rule, "%s / %s" % (a, b))
+        else:
+            chk.violation(rule, "marsh.c", "unmarshal_one", "%s|%s" % (a, b), x.loc,
+                          "`%s` pairs %s with %s, which are not the two forms of one table kind: a table written under the lead byte that "
+                          "this test should have named falls through to another constructor and comes back as a different kind of table "
+                          "(a weak table with a prototype as an ordinary one)" % (x.text()[:70], a, b))
+    chk.floor(rule, 3, n)
